@@ -209,6 +209,7 @@ func Harness_C15_Registry() {
 	var deploys []verifDeploy
 	var started []verifStarted
 	k := verif.Param("K", 4)
+	everyStep := verif.Choose("assembly-requested-after-every-step", 2) == 1
 	for step := 0; step < k; step++ {
 		switch op := verif.Choose("op", 4); op {
 		case 0: // register (also the heartbeat)
@@ -228,8 +229,8 @@ func Harness_C15_Registry() {
 			}
 			registered[i] = false
 		case 2:
-			d := verif.I64("elapsed")
-			verif.Assume(verif.And(d >= 0, d <= 20))
+			d := int64(verif.Byte("elapsed")) // seconds; narrow values keep the solver queries cheap
+			verif.Assume(d <= 20)
 			now += d
 			clock.Advance(time.Duration(d) * time.Second)
 		case 3:
@@ -258,6 +259,11 @@ func Harness_C15_Registry() {
 				}
 			}
 		}
+		// the job builds an assembly only while it waits for one: looking after every step would
+		// re-sort the registry's lists each time (always after the last step)
+		if step < k-1 && !everyStep {
+			continue
+		}
 		a, err := reg.NewAssembly()
 		if nOps >= taskCount && nRun >= taskCount {
 			verif.Assert(err == nil && a != nil, "assembly-offered-when-enough-nodes")
@@ -265,9 +271,19 @@ func Harness_C15_Registry() {
 				verif.Assert(len(a.operators) == taskCount && len(a.sourceRunners) == taskCount, "assembly-has-exactly-the-configured-size")
 				for _, o := range a.operators {
 					verif.Assert(reg.HasOperator(o), "assembly-members-are-registered")
+					for i, id := range ids {
+						if id == o.ID() {
+							verif.Assert(registered[i], "assembly-holds-only-currently-registered-live-nodes")
+						}
+					}
 				}
 				for _, r := range a.sourceRunners {
 					verif.Assert(reg.HasSourceRunner(r), "assembly-members-are-registered")
+					for i, id := range ids {
+						if id == r.ID() {
+							verif.Assert(registered[i], "assembly-holds-only-currently-registered-live-nodes")
+						}
+					}
 				}
 				ok, _ := a.Healthy(reg)
 				verif.Assert(ok, "fresh-assembly-is-healthy")
